@@ -217,8 +217,9 @@ def expr_role(e, roles, fn=None):
         if all(v is not None for v in vals):
             if all(v == (k - 1) // ar for v, k in zip(vals, range(1, 8))):
                 return "parent"
-            off = {v - ar * k - 1 for v, k in zip(vals, range(1, 8))}
-            if len(off) == 1 and 0 <= next(iter(off)) < ar:
+            # exactly the first child: that is what left() yields and what the scan of the children starts from (the
+            # further children are reached as child + constant, see above)
+            if all(v == ar * k + 1 for v, k in zip(vals, range(1, 8))):
                 return "child"
     return None
 
@@ -525,35 +526,105 @@ def returned_expr(f):
     return e
 
 
+def arith_leaves(e, out):
+    """the maximal sub-expressions of e that are not integer arithmetic (variables, calls, element reads)"""
+    e = strip_casts(e)
+    if e is None or (const_int(e) is not None and e["k"] != "DeclRefExpr") or (e["k"] == "DeclRefExpr" and e["ref"].get("kind") not in ("local", "param") and const_int(e) is not None):
+        return out
+    if e["k"] == "BinaryOperator" and e.get("op") in ("+", "-", "*", "/", "%", ">>", "<<"):
+        arith_leaves(kids(e)[0], out)
+        arith_leaves(kids(e)[1], out)
+    elif e["k"] == "UnaryOperator" and e.get("op") in ("-", "+") and kids(e):
+        arith_leaves(kids(e)[0], out)
+    elif e["k"] == "ParenExpr" and kids(e):
+        arith_leaves(kids(e)[0], out)
+    elif not any(match.same_expr(e, o) for o in out):
+        out.append(e)
+    return out
+
+
+def written_out_parents(tu, rec, rt, arity):
+    """closed world for parent indices that are not computed by parent(): every division in the other member functions of
+    the heap type is the parent of its one operand, (x - 1) / arity, or the parent of the last element, (size - 2) / arity;
+    returns how many there are"""
+    n = 0
+    for f in tu.find(record=rec):
+        if f.rtargs != rt or f.body is None or f.name == "parent":
+            continue
+        judged = set()
+        for y in ir.walk(f.body):
+            if y["k"] == "CompoundAssignOperator" and y.get("op") in ("/=", ">>="):
+                raise dtable.Undecidable("%s: %s() divides in place: index arithmetic not verified" % (f.nloc(y), f.name))
+            if not (y["k"] == "BinaryOperator" and y.get("op") in ("/", ">>")):
+                continue
+            top, par = y, f.parent(y)           # the whole computation the division is part of
+            while par is not None and (par["k"] in CASTS + ("ParenExpr",) or (par["k"] == "BinaryOperator" and par.get("op") in ("+", "-", "*", "/", "%", ">>", "<<"))):
+                top, par = par, f.parent(par)
+            if top.get("id") in judged:
+                continue
+            judged.add(top.get("id"))
+            leaves = arith_leaves(top, [])
+            good = False
+            if len(leaves) == 1:
+                lf0 = leaves[0]
+                hook = lambda e, k: k if match.same_expr(e, lf0) else None
+                first = 2 if heap_size(lf0) else 1
+                vals = [eval_arith(top, {}, lambda e, k=k: hook(e, k)) for k in range(first, first + 8)]
+                want = [((k - 1) - 1) // arity if heap_size(lf0) else (k - 1) // arity for k in range(first, first + 8)]
+                good = vals == want
+            if not good:
+                raise dtable.Undecidable("%s: the division %s in %s() is not understood: not the parent index (x - 1) / %d of its operand"
+                                         % (f.nloc(y), dtable.describe(top)[:60], f.name, arity))
+            n += 1
+    return n
+
+
 def check_index_inverse(ck, tu, rec):
+    """left() / parent() are evaluated as index arithmetic: left(k) == arity*k+1 and parent(c) == (c-1)/arity for every
+    child c of k, i.e. they are mutually inverse.  A function of the pair that the instantiation does not contain is not
+    called by any code of that heap type (member functions of a class template exist only where they are used): index
+    arithmetic that is written out instead is evaluated where the comparison sites use it (HEAP-DECISION)."""
     lefts = tu.find(name="left", record=rec)
-    for lf in lefts:
-        def one(lf=lf):
-            pf = [f for f in tu.find(name="parent", record=rec) if f.rtargs == lf.rtargs]
-            ck.require(len(pf) == 1, "%s: parent() of the same instantiation not found" % lf.loc)
-            pf = pf[0]
-            arity = fn_arity(lf)
-            ck.require(arity and len(lf.params) == 1 and len(pf.params) == 1, "%s: left()/parent() signature not understood" % lf.loc)
-            le, pe = returned_expr(lf), returned_expr(pf)
-            okall = True
+    parents = tu.find(name="parent", record=rec)
+    insts = []
+    for f in lefts + parents:
+        if f.rtargs not in insts:
+            insts.append(f.rtargs)
+    for rt in insts:
+        def one(rt=rt):
+            lf = [f for f in lefts if f.rtargs == rt]
+            pf = [f for f in parents if f.rtargs == rt]
+            ck.require(len(lf) <= 1 and len(pf) <= 1, "%s: several left()/parent() in one instantiation" % (lf + pf)[0].loc)
+            lf, pf = (lf[0] if lf else None), (pf[0] if pf else None)
+            any_f = lf or pf
+            arity = fn_arity(any_f)
+            ck.require(arity and all(f is None or len(f.params) == 1 for f in (lf, pf)), "%s: left()/parent() signature not understood" % any_f.loc)
+            le, pe = (returned_expr(lf) if lf else None), (returned_expr(pf) if pf else None)
             for k in range(0, 40):
-                l = eval_arith(le, {lf.params[0]["did"]: k})
-                if l is None:
-                    raise dtable.Undecidable("%s: left() is not plain index arithmetic" % lf.loc)
                 want = arity * k + 1
+                l = want
+                if lf is not None:
+                    l = eval_arith(le, {lf.params[0]["did"]: k})
+                    if l is None:
+                        raise dtable.Undecidable("%s: left() is not plain index arithmetic" % lf.loc)
                 for j in range(arity):
-                    p = eval_arith(pe, {pf.params[0]["did"]: l + j}) if l + j >= 1 else k
-                    if p is None:
-                        raise dtable.Undecidable("%s: parent() is not plain index arithmetic" % pf.loc)
+                    p = k
+                    if pf is not None and want + j >= 1:
+                        p = eval_arith(pe, {pf.params[0]["did"]: (l if l >= 1 else want) + j})
+                        if p is None:
+                            raise dtable.Undecidable("%s: parent() is not plain index arithmetic" % pf.loc)
                     if p != k or l != want:
-                        ck.violation("INDEX-INVERSE", lf.qname, "arity=%d" % arity,
-                                     "left(%d)=%s, parent(%d)=%s: children of node k must be arity*k+1..arity*k+arity and parent their inverse" % (k, l, l + j, p), lf.loc)
-                        okall = False
-                        break
-                if not okall:
-                    break
-            if okall:
+                        ck.violation("INDEX-INVERSE", any_f.qname, "arity=%d" % arity,
+                                     "left(%d)=%s, parent(%d)=%s: children of node k must be arity*k+1..arity*k+arity and parent their inverse" % (k, l, l + j, p), any_f.loc)
+                        return
+            n = written_out_parents(tu, rec, rt, arity)        # parent indices computed without parent()
+            if lf is not None and pf is not None:
                 ck.ok("INDEX-INVERSE", inst_tag(lf), "parent(left(k)+j) == k for k<40, j<%d; left(k) == %d*k+1" % (arity, arity))
+            elif lf is not None:
+                ck.ok("INDEX-INVERSE", inst_tag(lf), "left(k) == %d*k+1 for k<40; parent() is not instantiated (no code of this heap type calls it), "
+                      "the %d divisions written out instead all evaluate to (k-1)/%d" % (arity, n, arity))
+            else:
+                raise dtable.Undecidable("%s: left() is not instantiated for this heap type: child indices that are computed in another way are not verified" % pf.loc)
         ck.guarded(one)
 
 
@@ -653,6 +724,21 @@ def classify_handles_mention(fn, m):
         return None
     if p["k"] == "CXXForRangeStmt":
         return "fill" if match.fill_all(p) else None
+    # a never-written local reference / pointer / iterator bound to handles_ that is used by fill loops only
+    bound = p if p["k"] == "VarDecl" else None
+    if "callee" in p and p.get("member_call") and kids(p) and same_node(kids(p)[0], m) and p["callee"]["name"] in ("data", "begin"):
+        q = fn.parent(p)
+        while q is not None and q["k"] in CASTS + ("CXXConstructExpr",):
+            q = fn.parent(q)
+        bound = q if q is not None and q["k"] == "VarDecl" else None
+    if bound is not None and bound.get("did") is not None and bound["did"] not in local_facts(fn)[1]:
+        ty = (bound.get("ty") or "").rstrip()
+        if bound.get("isref") or ty.endswith(("&", "*")) or "iterator" in ty:
+            uses = [y for y in ir.walk(fn.body) if y["k"] == "DeclRefExpr" and y["ref"]["id"] == bound["did"]]
+            fills = [l for l in ir.walk(fn.body) if l["k"] == "ForStmt" and fill_of(fn, l) and match.this_field(fill_of(fn, l)[0]) == "handles_"]
+            if uses and all(any(inside(fn, u, l) for l in fills) for u in uses):
+                return "fill"
+            return None
     if "callee" in p and p.get("member_call") and kids(p) and same_node(kids(p)[0], m) and not p.get("op"):
         nm = p["callee"]["name"]
         if nm in ("size", "empty", "capacity", "max_size"):
@@ -717,7 +803,7 @@ def callee_handle_kinds(tu, cal, depth=0, seen=None):
         hs = handles_store(y)
         if hs:
             out.add("np" if is_not_present(hs[1]) else "pos")
-        fa = match.fill_all(y)
+        fa = fill_of(cal, y)
         if fa and match.this_field(fa[0]) == "handles_":
             out.add("np" if is_not_present(fa[1]) else "unknown")
         if y["k"] == "MemberExpr" and match.this_field(y) == "handles_" and classify_handles_mention(cal, y) is None:
@@ -816,6 +902,38 @@ def find_reindex(fn):
     return None, None, None
 
 
+def leaving_key(tu, fn, g, swaps, key, pop):
+    """the expression key denotes the key that pop_back() at `pop` removes: std::swap(heap_[H], heap_.back()) with
+    H = handles_[key] is executed on every path to the pop.  When the function is entered heap_[handles_[k]] == k holds for
+    every key k in the heap (the coupling this rule establishes; a key that is not in the heap has no valid H at all), so
+    after the swap heap_.back() is that key - provided heap_ and handles_ are untouched up to the swap and heap_ from the
+    swap to the pop, and key itself is built from values that never change"""
+    r = init_reads(key)
+    px = g.pos_deep(pop)
+    if r is None or r[0] or (r[1] & local_facts(fn)[1]) or px is None:
+        return False
+    for sw in swaps:
+        args = [a for a in kids(sw) if a is not None]
+        if len(args) != 2 or not match.call_named(sw, ("swap",)) or sw.get("member_call"):
+            continue
+        last = [a for a in args if heap_last(a)]
+        other = [a for a in args if not heap_last(a) and heap_index(a) is not None]
+        ps = g.pos_deep(sw)
+        if len(last) != 1 or len(other) != 1 or ps is None or not g.dominates(ps, px):
+            continue
+        hidx = resolve_at(tu, fn, g, heap_index(other[0]), ps)
+        ip = match.index_parts(hidx)
+        if not (ip and match.this_field(ip[0]) == "handles_" and match.same_expr(ip[1], key)):
+            continue
+        # state untouched from the entry to the swap, heap_ untouched from the swap to the pop
+        early = [w for w, fs in field_writers(tu, fn) if (ALL in fs or fs & {"heap_", "handles_"}) and not same_node(w, sw)
+                 and (g.pos_deep(w) is None or g.pos_deep(w) == ps or g.reachable(g.pos_deep(w), ps))]
+        if early or g.reachable(ps, ps) or written_between(tu, fn, g, {"heap_"}, ps, px, skip=(sw,)) is not None:
+            continue
+        return True
+    return False
+
+
 def check_handle_coupled(ck, fn):
     """every change of heap_ keeps handles_ in step: a store heap_[I] = V has handles_[heap_[I] | V] = I on every path (unless
     a full re-index loop follows), an appended key gets its position, a key that leaves is marked not_present"""
@@ -845,17 +963,18 @@ def check_handle_coupled(ck, fn):
         mv = match.call_named(v, ("move",))
         vv = kids(mv)[-1] if mv else v
         after, before = [], []
+        px = g.pos_deep(x)
         for h in hst:
-            if not match.same_expr(h[2], idx):
+            ph = g.pos_deep(h[0])
+            if not same_value(tu, fn, g, h[2], ph, idx, px):
                 continue
             hk = heap_index(h[1])
-            if hk is not None and match.same_expr(hk, idx):
+            if hk is not None and same_value(tu, fn, g, hk, ph, idx, px):
                 after.append(h)              # handles_[heap_[idx]] = idx: meaningful once the store has happened
             elif match.same_expr(h[1], vv):
                 after.append(h)              # handles_[value] = idx: meaningful on either side of the store
                 before.append(h)
         used |= {h[3] for h in after}
-        px = g.pos_deep(x)
         pa = [g.pos_deep(h[0]) for h in after if g.pos_deep(h[0]) is not None]
         pb = [g.pos_deep(h[0]) for h in before if g.pos_deep(h[0]) is not None]
         okk = px is not None and ((pa and g.path_avoiding(px, pa) is None) or (pb and g.path_from_entry_avoiding(px, pb) is None))
@@ -866,7 +985,8 @@ def check_handle_coupled(ck, fn):
     for x in swaps:
         # swap(heap_[h], heap_.back()): the key now at h needs handles_[heap_[h]] = h, the key at the back is about to leave
         for idx in [i for i in (heap_index(e) for e in kids(x)) if i is not None]:
-            m = [h for h in hst if heap_index(h[1]) is not None and match.same_expr(heap_index(h[1]), idx) and match.same_expr(h[2], idx)]
+            m = [h for h in hst if heap_index(h[1]) is not None and same_value(tu, fn, g, heap_index(h[1]), g.pos_deep(h[0]), idx, g.pos_deep(x))
+                 and same_value(tu, fn, g, h[2], g.pos_deep(h[0]), idx, g.pos_deep(x))]
             used |= {h[3] for h in m}
             if not m:
                 failures.append(("pos", fn.name + ":swap", "after the swap the key moved to heap_[%s] keeps its old handle" % dtable.describe(idx), x))
@@ -879,8 +999,12 @@ def check_handle_coupled(ck, fn):
         for h in hst:
             if not match.same_expr(h[1], key):
                 continue
-            b = match.binop(match.strip_conv(h[2]), ("-",))
-            if heap_size(h[2]):
+            # a never-written local that holds heap_.size() stands for it as long as heap_ is not changed in between
+            hv = resolve_at(tu, fn, g, h[2], g.pos_deep(h[0]))
+            b = match.binop(match.strip_conv(hv), ("-",))
+            if heap_size(hv):
+                if hv is not h[2] and (px is None or written_between(tu, fn, g, {"heap_"}, g.pos_deep(h[0]), px) is not None):
+                    continue                # the local's value may be stale by the time the key is appended
                 pre.append(h)               # handles_[key] = heap_.size() in front of the push_back
             elif b and heap_size(b[1]) and const_int(b[2]) == 1:
                 post.append(h)              # handles_[key] = heap_.size() - 1 behind it
@@ -893,7 +1017,12 @@ def check_handle_coupled(ck, fn):
     # removal: pop_back must mark the leaving key not present
     for x in pops:
         px = g.pos_deep(x)
-        m = [h for h in hst if is_not_present(h[2]) and heap_last(h[1])]
+        m = [h for h in hst if is_not_present(h[2]) and (heap_last(h[1]) or heap_last(resolve_at(tu, fn, g, h[1], g.pos_deep(h[0])))
+                                                         or leaving_key(tu, fn, g, swaps, h[1], x))]
+        # nothing may write handles_ between the mark and the pop_back (a later handles_[...] = pos could set the handle again),
+        # nor heap_ (the last element would be another one)
+        m = [h for h in m if px is not None and g.pos_deep(h[0]) is not None
+             and written_between(tu, fn, g, {"handles_", "heap_"}, g.pos_deep(h[0]), px) is None]
         used |= {h[3] for h in m}
         pm = [g.pos_deep(h[0]) for h in m if g.pos_deep(h[0]) is not None]
         if not (px is not None and pm and g.path_from_entry_avoiding(px, pm) is None):
@@ -938,7 +1067,7 @@ def check_handle_reset(ck, fn):
     g = cfgm.CFG(fn)
     resets = []
     for x in ir.walk(fn.body):
-        fa = match.fill_all(x)
+        fa = fill_of(fn, x)
         if fa and match.this_field(fa[0]) == "handles_" and is_not_present(fa[1]):
             resets.append(x)
         c = match.call_named(x, ("assign",)) if "callee" in x else None
@@ -1527,6 +1656,46 @@ def field_aliases(fn):
     return out, root_field
 
 
+def node_writes(tu, fn, x, aliases, root_field, depth, seen, opaque):
+    """fields of *this that the node x of fn may write (see written_fields)"""
+    out = set()
+    b = match.binop(x)
+    if b and b[0] in ("=", "+=", "-=", "|=", "&=", "*=", "/=", "^=", "<<=", ">>=", "%="):
+        f = root_field(b[1])
+        if f:
+            out.add(f)
+    u = match.unop(x, ("++", "--"))
+    if u and root_field(u[1]) and not (strip_casts(u[1])["k"] == "DeclRefExpr"):
+        out.add(root_field(u[1]))
+    if "callee" in x and x.get("member_call") and kids(x):
+        obj = strip_casts(kids(x)[0])
+        f = root_field(obj)
+        if f and not x["callee"].get("const"):
+            out.add(f)
+        if obj["k"] == "This":
+            cal = tu.by_did.get(x["callee"]["did"])
+            if cal is not None and cal.body is not None:
+                out |= written_fields(tu, cal, depth + 1, seen, opaque)
+            elif opaque is not None and not x["callee"].get("const"):
+                opaque.append("%s() at line %s (body not available)" % (x["callee"]["name"], x.get("l")))
+    fa = fill_of(fn, x)
+    if fa and root_field(fa[0]):
+        out.add(root_field(fa[0]))
+    if x["k"] == "CXXForRangeStmt":
+        f = match.this_field(kids(x)[0])
+        if f and any("callee" in y and y.get("member_call") and not y["callee"].get("const") for y in ir.walk(kids(x)[2])):
+            out.add(f)
+    if opaque is not None:
+        if x["k"] == "LambdaExpr":
+            opaque.append("lambda at line %s" % x.get("l"))
+        if "callee" in x and not x.get("member_call") and not x.get("op") and x["k"] not in ("CXXConstructExpr", "CXXTemporaryObjectExpr") \
+                and x["callee"]["name"] not in PURE_FREE and not match.fill_all(x):
+            # a free function that receives a field (or something derived from it) by reference may write it
+            if any(y["k"] == "This" or (y["k"] == "DeclRefExpr" and y["ref"]["id"] in aliases) for a_ in kids(x) for y in ir.walk(a_)):
+                opaque.append("%s(...) at line %s" % (x["callee"]["name"], x.get("l")))
+    return out
+
+
 def written_fields(tu, fn, depth=0, seen=None, opaque=None):
     """fields of *this written by fn, directly or through member calls on this / on fields (also through local references
     to them).  `opaque`, if given, collects descriptions of operations whose effect on the fields is not understood."""
@@ -1537,41 +1706,246 @@ def written_fields(tu, fn, depth=0, seen=None, opaque=None):
     out = set()
     aliases, root_field = field_aliases(fn)
     for x in ir.walk(fn.body):
-        b = match.binop(x)
-        if b and b[0] in ("=", "+=", "-=", "|=", "&=", "*=", "/=", "^=", "<<=", ">>=", "%="):
-            f = root_field(b[1])
-            if f:
-                out.add(f)
-        u = match.unop(x, ("++", "--"))
-        if u and root_field(u[1]) and not (strip_casts(u[1])["k"] == "DeclRefExpr"):
-            out.add(root_field(u[1]))
-        if "callee" in x and x.get("member_call") and kids(x):
-            obj = strip_casts(kids(x)[0])
-            f = root_field(obj)
-            if f and not x["callee"].get("const"):
-                out.add(f)
-            if obj["k"] == "This":
-                cal = tu.by_did.get(x["callee"]["did"])
-                if cal is not None and cal.body is not None:
-                    out |= written_fields(tu, cal, depth + 1, seen, opaque)
-                elif opaque is not None and not x["callee"].get("const"):
-                    opaque.append("%s() at line %s (body not available)" % (x["callee"]["name"], x.get("l")))
-        fa = match.fill_all(x)
-        if fa and root_field(fa[0]):
-            out.add(root_field(fa[0]))
-        if x["k"] == "CXXForRangeStmt":
-            f = match.this_field(kids(x)[0])
-            if f and any("callee" in y and y.get("member_call") and not y["callee"].get("const") for y in ir.walk(kids(x)[2])):
-                out.add(f)
-        if opaque is not None:
-            if x["k"] == "LambdaExpr":
-                opaque.append("lambda at line %s" % x.get("l"))
-            if "callee" in x and not x.get("member_call") and not x.get("op") and x["k"] not in ("CXXConstructExpr", "CXXTemporaryObjectExpr") \
-                    and x["callee"]["name"] not in PURE_FREE and not match.fill_all(x):
-                # a free function that receives a field (or something derived from it) by reference may write it
-                if any(y["k"] == "This" or (y["k"] == "DeclRefExpr" and y["ref"]["id"] in aliases) for a_ in kids(x) for y in ir.walk(a_)):
-                    opaque.append("%s(...) at line %s" % (x["callee"]["name"], x.get("l")))
+        out |= node_writes(tu, fn, x, aliases, root_field, depth, seen, opaque)
     return out
+
+
+# ---------------------------------------------------------------- values of never-written locals
+ALL = "*"
+_ASSIGN_OPS = ("=", "+=", "-=", "|=", "&=", "*=", "/=", "^=", "<<=", ">>=", "%=")
+_VALUE_OPS = ("[]", "+", "-", "*", "/", "%", "<", ">", "<=", ">=", "==", "!=", "&&", "||", "!", "<<", ">>", "&", "|", "^")
+ACCESSORS = ("back", "front", "begin", "end", "cbegin", "cend", "rbegin", "rend", "data", "at", "size", "empty", "capacity")
+PURE_IN_INIT = ("size", "empty", "back", "front", "at", "data", "begin", "end", "parent", "left", "not_present", "min", "max", "top")
+
+
+def local_facts(fn):
+    """(decl id -> VarDecl with an initialiser, ids of the locals / parameters that may change after their initialisation:
+    assigned, stepped, address taken, bound to a non-const reference, handed to a function that may take them by
+    reference, touched by a lambda; range-for variables)"""
+    got = getattr(fn, "_c13_local_facts", None)
+    if got is not None:
+        return got
+    decls, mutable = {}, set()
+    for y in fn.nodes():
+        k = y["k"]
+        if k == "VarDecl" and y.get("did") is not None:
+            if kids(y) and kids(y)[0] is not None:
+                decls.setdefault(y["did"], y)
+                ty = (y.get("ty") or "").rstrip()
+                if (y.get("isref") or ty.endswith(("&", "*"))) and not ty.startswith("const ") and ref_of(kids(y)[0]) is not None:
+                    mutable.add(ref_of(kids(y)[0]))
+            par = fn.parent(y)
+            if par is not None and par["k"] == "CXXForRangeStmt":
+                mutable.add(y["did"])
+        if k == "CXXForRangeStmt":
+            for c in kids(y)[:2]:
+                if c is not None and c["k"] == "VarDecl":
+                    mutable.add(c.get("did"))
+        b = match.binop(y)
+        if b and b[0] in _ASSIGN_OPS and strip_casts(b[1]) is not None and strip_casts(b[1])["k"] == "DeclRefExpr":
+            mutable.add(ref_of(b[1]))
+        u = match.unop(y, ("++", "--"))
+        if u and ref_of(u[1]) is not None:
+            mutable.add(ref_of(u[1]))
+        if k == "UnaryOperator" and y.get("op") == "&" and kids(y) and ref_of(kids(y)[0]) is not None:
+            mutable.add(ref_of(kids(y)[0]))
+        if k == "LambdaExpr":
+            mutable |= {z["ref"]["id"] for z in fn.nodes() if z["k"] == "DeclRefExpr"}
+        if "callee" in y and not y.get("op") and y["callee"]["name"] not in ("min", "max"):
+            cal = fn.tu.by_did.get(y["callee"].get("did"))
+            args = kids(y)[1:] if y.get("member_call") else kids(y)
+            for i, a in enumerate(args):
+                s = a
+                while s is not None and s["k"] in CASTS and kids(s) and s.get("cast") == "NoOp":
+                    s = kids(s)[0]
+                if s is None or s["k"] != "DeclRefExpr":
+                    continue            # a converted value: no reference to the variable itself is passed
+                pty = (cal.params[i].get("ty") or "").rstrip() if cal is not None and i < len(cal.params) else None
+                if pty is None or (pty.endswith(("&", "*")) and not pty.startswith("const ")):
+                    mutable.add(s["ref"]["id"])
+    mutable.discard(None)
+    for did, d in decls.items():
+        ty = (d.get("ty") or "").rstrip()
+        if ty.startswith("const ") and not ty.endswith(("&", "*")):
+            mutable.discard(did)        # a const object cannot change
+    fn._c13_local_facts = (decls, mutable)
+    return fn._c13_local_facts
+
+
+def init_reads(e):
+    """(fields of *this, locals / parameters) that a side-effect free expression reads (ALL among the fields: any of them);
+    None if e is not understood to be side-effect free"""
+    fields, locs = set(), set()
+
+    def rec(y):
+        if y is None:
+            return True
+        k = y["k"]
+        if k == "This":
+            fields.add(ALL)
+            return True
+        if k == "MemberExpr" and match.this_field(y):
+            fields.add(y["member"])
+            return True
+        if k == "DeclRefExpr":
+            if y["ref"].get("kind") in ("local", "param"):
+                locs.add(y["ref"]["id"])
+                return True
+            return const_int(y) is not None
+        if "callee" in y:
+            if y["k"] in ("CXXConstructExpr", "CXXTemporaryObjectExpr"):
+                return False
+            if not (y.get("op") in _VALUE_OPS or (not y.get("op") and (y["callee"]["name"] in PURE_IN_INIT or (y.get("member_call") and y["callee"].get("const"))))):
+                return False
+        elif k in ("BinaryOperator",):
+            if y.get("op") not in _VALUE_OPS and y.get("op") != ",":
+                return False
+        elif k == "UnaryOperator":
+            if y.get("op") not in ("-", "+", "!", "~", "*"):
+                return False
+        elif k not in CASTS + ("ConditionalOperator", "ArraySubscriptExpr", "ParenExpr", "MemberExpr", "IntegerLiteral", "CXXBoolLiteralExpr",
+                               "CharacterLiteral", "UnaryExprOrTypeTraitExpr", "DefaultArg"):
+            return False
+        return all(rec(c) for c in kids(y))
+    return (fields, locs) if rec(e) else None
+
+
+def field_writers(tu, fn):
+    """[(node, fields of *this it may write; ALL = any)] for the nodes of fn"""
+    got = getattr(fn, "_c13_writers", None)
+    if got is None:
+        got = []
+        aliases, root_field = field_aliases(fn)
+        for x in ir.walk(fn.body):
+            opaque = []
+            w = node_writes(tu, fn, x, aliases, root_field, 0, set(), opaque)
+            if opaque:
+                w = w | {ALL}
+            if match.call_named(x, ("swap", "iter_swap")) and "callee" in x and not x.get("member_call") and len(kids(x)) == 2 \
+                    and all(root_field(a) for a in kids(x)):
+                w = {root_field(a) for a in kids(x)}        # std::swap(f[i], g.back()) exchanges elements of these fields, nothing else
+            if "callee" in x and x.get("member_call") and kids(x) and strip_casts(kids(x)[0])["k"] != "This" and x["callee"]["name"] in ACCESSORS:
+                continue                # hands out a reference / iterator; a write through it is seen where it happens
+            if w:
+                got.append((x, w))
+        fn._c13_writers = got
+    return got
+
+
+def written_between(tu, fn, g, fields, pa, pb, skip=()):
+    """a node that may write one of the fields on a path from CFG position pa to pb (both exclusive), else None"""
+    for w, fs in field_writers(tu, fn):
+        if not (ALL in fs or ALL in fields or fs & fields) or any(same_node(w, s_) for s_ in skip):
+            continue
+        pw = g.pos_deep(w)
+        if pw is None or (g.reachable(pa, pw) and g.reachable(pw, pb)):
+            return w
+    return None
+
+
+def resolve_at(tu, fn, g, e, at, depth=0):
+    """e with never-written locals replaced by their initialisers, where the initialiser evaluated at CFG position `at`
+    (the place where e is evaluated) still yields the value of the local: it is side-effect free, the locals it reads
+    never change and no field it reads can be written between the declaration and `at`"""
+    if e is None or at is None or depth > 3:
+        return e
+    decls, mutable = local_facts(fn)
+    mapping = {}
+    for y in ir.walk(e):
+        if y["k"] != "DeclRefExpr" or y["ref"].get("kind") != "local":
+            continue
+        did = y["ref"]["id"]
+        if did in mapping or did in mutable or did not in decls:
+            continue
+        d = decls[did]
+        ty = (d.get("ty") or "").rstrip()
+        if d.get("isref") or ty.endswith(("&", "*")):
+            continue
+        r = init_reads(kids(d)[0])
+        pd = g.pos_deep(d)
+        if r is None or pd is None or (r[1] & mutable):
+            continue
+        if not (pd == at or g.reachable(pd, at)):
+            continue
+        if r[0] and written_between(tu, fn, g, r[0], pd, at) is not None:
+            continue
+        mapping[did] = kids(d)[0]
+    if not mapping:
+        return e
+    return resolve_at(tu, fn, g, dtable._subst(e, mapping), at, depth + 1)
+
+
+def same_value(tu, fn, g, a, pa, b, pb):
+    """a evaluated at CFG position pa and b evaluated at pb denote the same value: the same expression, or the same after
+    never-written locals were replaced by their initialisers (resolve_at) and nothing the result reads changes between
+    the two places"""
+    if match.same_expr(a, b):
+        return True
+    if pa is None or pb is None:
+        return False
+    ra, rb = resolve_at(tu, fn, g, a, pa), resolve_at(tu, fn, g, b, pb)
+    if not match.same_expr(ra, rb):
+        return False
+    r = init_reads(ra)
+    if r is None or (r[1] & local_facts(fn)[1]):
+        return False
+    if not r[0]:
+        return True
+    return written_between(tu, fn, g, r[0], pa, pb) is None and written_between(tu, fn, g, r[0], pb, pa) is None
+
+
+def container_of(fn, e):
+    """the container whose elements e[...] denotes: e itself, or what a never-written local reference / pointer /
+    iterator e was bound to (auto& c = x; T* p = x.data(); auto it = x.begin(); T* p = &x[0])"""
+    s = strip_casts(e)
+    if s is None or s["k"] != "DeclRefExpr" or s["ref"].get("kind") != "local":
+        return e
+    decls, mutable = local_facts(fn)
+    d = decls.get(s["ref"]["id"])
+    if d is None or s["ref"]["id"] in mutable:
+        return e
+    ty = (d.get("ty") or "").rstrip()
+    init = match.strip_conv(kids(d)[0])
+    if d.get("isref") or ty.endswith("&"):
+        return init if init is not None and (init["k"] == "MemberExpr" or init["k"] == "DeclRefExpr") else e
+    c = match.call_named(init, ("data", "begin"))
+    if c is not None and c.get("member_call") and len(kids(c)) == 1:
+        return kids(c)[0]
+    if init is not None and init["k"] == "UnaryOperator" and init.get("op") == "&" and kids(init):
+        ip = match.index_parts(kids(init)[0])
+        if ip and const_int(ip[1]) == 0:
+            return ip[0]
+    return e
+
+
+def fill_of(fn, n):
+    """match.fill_all, and the counting loop written through a local alias of the container:
+    T* p = c.data(); for (i = 0; i < c.size(); ++i) p[i] = v;   (also auto& r = c / c.begin() / &c[0])"""
+    fa = match.fill_all(n)
+    if fa or n is None or n["k"] != "ForStmt":
+        return fa
+    init, cond, inc, body = match.loop_parts(n)
+    stmts = [s for s in (kids(body) if body is not None and body["k"] == "CompoundStmt" else [body]) if s is not None]
+    var = [y for y in ir.walk(init) if y["k"] == "VarDecl"] if init is not None else []
+    c = match.binop(cond, ("<", "!=")) if cond is not None else None
+    if not (len(var) == 1 and kids(var[0]) and const_int(kids(var[0])[0]) == 0 and c and ref_of(c[1]) == var[0]["did"] and len(stmts) == 1):
+        return None
+    did = var[0]["did"]
+    u = match.unop(inc, ("++",)) if inc is not None else None
+    bi = match.binop(inc, ("+=",)) if inc is not None else None
+    if not ((u and ref_of(u[1]) == did) or (bi and ref_of(bi[1]) == did and const_int(bi[2]) == 1)):
+        return None
+    sz = match.call_named(match.strip_conv(c[2]), ("size",))
+    b = match.binop(stmts[0], ("=",))
+    ip = match.index_parts(b[1]) if b else None
+    if sz is None or not sz.get("member_call") or len(kids(sz)) != 1 or not ip or ref_of(ip[1]) != did:
+        return None
+    if any(y["k"] == "DeclRefExpr" and y["ref"]["id"] == did for y in ir.walk(b[2])):
+        return None
+    ca, cb = container_of(fn, ip[0]), container_of(fn, kids(sz)[0])
+    if match.same_expr(ca, cb) and strip_casts(ca)["k"] in ("MemberExpr", "DeclRefExpr"):
+        return ca, b[2]
+    return None
 
 
 def check_build_replaces(ck, tu, rec):
@@ -1580,6 +1954,18 @@ def check_build_replaces(ck, tu, rec):
     RESET = ("assign", "clear", "resize", "operator=", "swap")
     APPEND = ("push_back", "emplace_back", "insert", "emplace")
     SIZING = ("resize", "assign")
+
+    def sizing(r):
+        """the reset gives heap_ a size of the caller's choosing: resize(n) / assign(n, v) / heap_ = vector(n [, v])"""
+        if r["callee"]["name"] in SIZING:
+            return True
+        b = match.binop(r, ("=",))
+        v = strip_casts(b[2]) if b else None
+        if v is not None and v["k"] in ("CXXConstructExpr", "CXXTemporaryObjectExpr") and v["callee"]["name"] == "vector":
+            args = [a for a in kids(v) if a is not None and a["k"] != "DefaultArg"]
+            aty = (args[0].get("ty") or "").replace("const ", "").strip() if args else ""
+            return len(args) in (1, 2) and aty in BITS
+        return False
     for fn in tu.find(name="build_heap", record=rec):
         def one(fn=fn):
             g = cfgm.CFG(fn)
@@ -1621,12 +2007,12 @@ def check_build_replaces(ck, tu, rec):
             # a sized overwrite needs resize(source size) in front of the copy
             for w in writes:
                 pw = g.pos_deep(w)
-                sized = [g.pos_deep(r) for r in resets if r["callee"]["name"] in SIZING and g.pos_deep(r) is not None]
+                sized = [g.pos_deep(r) for r in resets if sizing(r) and g.pos_deep(r) is not None]
                 if pw is None:
                     raise dtable.Undecidable("%s: position of the copy into heap_ not found in the CFG" % fn.nloc(w))
                 if g.path_from_entry_avoiding(pw, sized) is None:
                     continue
-                unsized = [r for r in resets if r["callee"]["name"] not in SIZING + ("clear",) and g.pos_deep(r) is not None and
+                unsized = [r for r in resets if not sizing(r) and r["callee"]["name"] != "clear" and g.pos_deep(r) is not None and
                            (g.reachable(g.pos_deep(r), pw))]
                 if unsized or other or delegates:
                     raise dtable.Undecidable("%s: keys are copied over heap_.begin(); cannot tell whether heap_ has the size of the source at that point (%s)"
@@ -1754,7 +2140,8 @@ def run(ck):
         "DAryHeap / DAryAddressableIntHeap: every comparator call in sift_up, sift_down and heapify is classified by the roles of its "
         "operands (hole value, parent, child - derived from index-variable provenance) and its decision is tabulated: the smaller child is "
         "selected, the hole sinks iff a child is strictly smaller and rises iff the value is strictly smaller than the parent; left()/parent() "
-        "are evaluated as index arithmetic and must be mutually inverse. Addressable heap: every store into heap_ keeps handles_ in step "
+        "are evaluated as index arithmetic and must be mutually inverse (a parent index that is written out instead is evaluated too: every "
+        "division in the heap's member functions must be (x-1)/arity). Addressable heap: every store into heap_ keeps handles_ in step "
         "(or a full re-index loop follows), wholesale replacement of heap_ resets the old handles first, the handles_ growth bound covers "
         "every key. RadixHeap: every insertion into / emptying of a bucket updates the filled_ bit, mins_ and size_ together; clear() / clear_all() reset "
         "every mutable state field; build_heap() replaces the contents (BUILD-REPLACES); the bit-index arithmetic of the bucket computation uses the width "
